@@ -297,6 +297,37 @@ impl Spec {
         }
         s
     }
+    /// `wf …` replay line: the specification with its expected reference, re-judged by `one`
+    fn replay_line(&self) -> String {
+        let (r, la, lo) = match &self.reference {
+            None => ("-".to_string(), "-".to_string(), "-".to_string()),
+            Some((r, la, lo)) => (enc(r), bits(*la), bits(*lo)),
+        };
+        let f = match self.form {
+            Form::Full => "F",
+            Form::TcpNoPort => "N",
+            Form::PortOnly => "P",
+        };
+        format!("wf {f} {} {} {} {} {} {r} {la} {lo}", self.scheme, enc(&self.host), self.port, enc(&self.path), self.sep)
+    }
+    fn from_replay(w: &[&str]) -> Option<Spec> {
+        let [f, scheme, host, port, path, sep, r, la, lo] = w else { return None };
+        let fb = |t: &str| u64::from_str_radix(t, 16).ok().map(f64::from_bits);
+        Some(Spec {
+            form: match *f {
+                "F" => Form::Full,
+                "N" => Form::TcpNoPort,
+                "P" => Form::PortOnly,
+                _ => return None,
+            },
+            scheme: *["tcp", "udp", "ws", "rtlsdr"].iter().find(|x| x == &scheme)?,
+            host: dec(host)?,
+            port: port.parse().ok()?,
+            path: dec(path)?,
+            sep: if *sep == "?" { "?" } else { "@" },
+            reference: if *r == "-" { None } else { Some((dec(r)?, fb(la)?, fb(lo)?)) },
+        })
+    }
     /// host and port of the endpoint the text denotes
     fn host_port(&self) -> (String, u16) {
         match self.form {
@@ -365,10 +396,13 @@ fn gen_spec(rng: &mut Rng) -> Spec {
         _ => 1 + rng.below(65535) as u16,
     };
     let path = if scheme == "ws" {
-        match rng.below(4) {
+        match rng.below(6) {
             0 => String::new(),
             1 => "/".into(),
             2 => format!("/{}", rng.below(65536)),
+            // empty segments are legal in a URL path and must survive verbatim
+            3 => format!("//{}", rng.below(100)),
+            4 => format!("/{}//{}", rng.pick(NAMES), rng.below(100)),
             _ => format!("/{}/{}", rng.pick(NAMES), rng.below(100)),
         }
     } else {
@@ -404,7 +438,7 @@ fn same_f(a: f64, b: f64) -> bool {
 /// serial of the string form equals the serial of the table forms.
 fn wellformed(out: &mut Out, sp: &Spec, batch: &mut Vec<(String, u64)>) {
     let text = sp.text();
-    let input = format!("src {}", enc(&text));
+    let input = sp.replay_line();
     let class = match sp.form {
         Form::Full => format!("wellformed-{}", sp.scheme),
         Form::TcpNoPort => "wellformed-tcp-noport".to_string(),
@@ -458,6 +492,23 @@ fn wellformed(out: &mut Out, sp: &Spec, batch: &mut Vec<(String, u64)>) {
         }
     }
     batch.push((text, serial));
+}
+
+/// `:N[@ref]` — "`port` must be a number" (command-line help): a number that is a port gives
+/// `0.0.0.0:N`, any other number is rejected (never wrapped into some other port).
+fn port_only(out: &mut Out, n: u64, suffix: &str) {
+    let text = format!(":{n}{suffix}");
+    let input = format!("port {n} {}", enc(suffix));
+    match src_case(out, &text, "portonly-range") {
+        Some(Ok(src)) => {
+            let (k, e) = endpoint(&src.address);
+            if n > 65535 || k != "tcp" || e != Some(format!("0.0.0.0:{n}")) {
+                out.fail("portonly-range", &input, &format!("{text:?} gave {k} {e:?}"));
+            }
+        }
+        Some(Err(e)) if n <= 65535 => out.fail("portonly-range", &input, &format!("{text:?} was rejected: {e}")),
+        _ => {}
+    }
 }
 
 // ---------------------------------------------------------------- the second process
@@ -717,6 +768,14 @@ pub fn one(out: &mut Out, line: &str) {
         ["ser", rest @ ..] if !rest.is_empty() => {
             ser_case(out, rest);
         }
+        ["wf", rest @ ..] => match Spec::from_replay(rest) {
+            Some(sp) => wellformed(out, &sp, &mut Vec::new()),
+            None => out.notes.push(format!("bad replay line: {line}")),
+        },
+        ["port", n, suffix] => match (n.parse(), dec(suffix)) {
+            (Ok(n), Some(sfx)) => port_only(out, n, &sfx),
+            _ => out.notes.push(format!("bad replay line: {line}")),
+        },
         // plain text convenience: `text tcp://h:1@LFBO`
         ["text", s] => {
             src_case(out, s, "replay");
@@ -766,6 +825,14 @@ pub fn run(out: &mut Out, rng: &mut Rng, thorough: bool) {
             let t = mutate(rng, &sp.text());
             src_case(out, &t, "mutated");
         }
+    }
+    for n in [0u64, 1, 80, 4003, 10003, 65534, 65535, 65536, 65537, 99999, 131072 + 4003, (1 << 32) + 4003, u64::MAX] {
+        port_only(out, n, "");
+        port_only(out, n, "@LFBO");
+    }
+    for _ in 0..300 * k {
+        let n = if rng.chance(1, 2) { rng.below(65536) } else { rng.below(10_000_000) };
+        port_only(out, n, if rng.chance(1, 3) { "?LFPG" } else { "" });
     }
     // 4. grammar with every optional part present / absent / malformed
     for _ in 0..12000 * k {
